@@ -370,3 +370,15 @@ def r8(ctx):
 
 
 RULES = [r1, r2, r3, r4, r5, r6, r7, r8]
+
+EXPLANATION = ("C02 (crash recovers to before-or-after): decides the write-ahead ordering premises on the CFG of every mutating entry point — "
+               "data write before oplog entry, entry write ?-checked before any in-memory commit, commits before the periodic flush (append R1, proof apply R2), "
+               "drop entry before destructive delete (clear R3), bitfield -> tree -> header order of the flush (R4), header content before truncate and the "
+               "three-info shape of a trace-clearing flush (R5), in-order one-mutation-per-info issue loop of Storage::flush_infos (R6), stale entries gated by "
+               "the header bit on open (R7) and the log tail offset restored on open (R8).")
+NOT_DECIDED = ("idempotence of replay over partially flushed bitfield/tree; correctness of the header-bit rotation table; atomicity of backend operations; "
+               "which state a given crash point recovers to.")
+ASSUMPTIONS = ["each RandomAccess operation is atomic and persisted in issue order (stated by the property)", "MIR built by rustc reflects the source semantics"]
+
+CLAIMED = False
+NA_REASON = "rules C02.R1-R8 are wired but R7/R8 fire on the unchanged tree; being triaged (defect vs false alarm) before the property is claimed"
